@@ -518,3 +518,27 @@ _add("C10", "KNOWN FINDING D10 (third session, found by the implementation-level
      "source flate.Reader reports UnexpectedEOF instead of Corrupted for an invalid dynamic block whose violation lies in "
      "the last two bytes of the input (class bytereader-eof-before-corruption-at-end in known_findings.txt; witnesses are "
      "generated on every run, a different dependence of the class on the source is still a violation).")
+
+_add("C03", "Added: FOR EVERY LENGTH VECTOR (2..258 lengths in 1..20) the code list the Go reader builds - GeneratePrefixes when the "
+     "Kraft sum is one, handleDegenerateCodes otherwise (model Bzip2/Degenerate.v mirrors createTables/getSymbol/exploreCode; "
+     "WBZDEGEN correspondence incl. the real ReadPrefixCodes dispatch) - is complete and prefix-free and decodes, on every "
+     "source state, exactly like libbzip2's limit/base/perm tables: same symbol after the same bits, Corrupted at the same "
+     "bit, UnexpectedEOF on the same inputs (bzip2_code_tables_decode_like_libbzip2; 9 files by a proof sub-agent). "
+     "Truncation: every proper non-empty prefix of a Writer-produced stream is UnexpectedEOF with a prefix of the data; a cut "
+     "between members is acceptance; trailing bytes that do not begin a stream are refused after the data (Bzip2/Cut.v).")
+_add("C09", "Added: bzip2 truncation theorem for every Writer-produced stream and cut (Bzip2/Cut.v); the XFLATE Reader model on ANY "
+     "input: open fails only with Corrupted/UnexpectedEOF and every call of every history on an opened stream ends in a "
+     "documented class, never a panic or an exhausted budget (XFlate/Total.v).")
+_add("C08", "Added: totality of the XFLATE Reader model on hostile input (XFlate/Total.v): the backward index walk descends by >= 4 "
+     "bytes per index (at most length/4 indexes), the decoded record table is always sorted whatever the index claims, the Read "
+     "loop's budget 2*records + n + 8 suffices on every stream; open I/O is bounded by the file size + 64 on any input "
+     "(XFlate/OpenLocality.v).")
+_add("C17", "Added: the OPEN phase as an equation on the I/O log (XFlate/OpenLocality.v): for every Writer-produced stream the log is "
+     "one read of the last min(64, len) bytes, each index block exactly once, newest first, then the first item is prepared; on "
+     "any input the index reads are disjoint, descending and below the footer.")
+_add("C12", "bzip2: every proper non-empty prefix of Writer output is UnexpectedEOF with a prefix of the data (Bzip2/Cut.v).")
+_add("C02", "brotli's OWN bit reader and prefix decoder at implementation level (Brotli/BitReaderImpl.v over a modelled bufio.Reader, "
+     "Brotli/PrefixDecoderImpl.v; WBRBITS / WBRDEC correspondence): the bit reader refines the abstract bit stream for all "
+     "histories on both source paths (no over-consumption after FlushOffset; brotli's copy has no look-ahead bits, so defect D5 "
+     "of internal/prefix does not exist there), Init builds correct tables in both assignCodes modes over any stale storage, "
+     "ReadSymbol returns the symbol consuming exactly the code word (Brotli/*Thms.v).")
